@@ -107,4 +107,6 @@ PARTS = [
     Part('generated', check_qr, strategy=lambda tier: gen_case(),
          n={'quick': 500, 'thorough': 10000}, workers={'quick': 4, 'thorough': 16},
          doc='Hypothesis-generated charge vectors up to 12x12'),
+    Part('fuzz_generated', None, fuzz_of='generated', runs={'quick': 0, 'thorough': 40000}, workers={'quick': 0, 'thorough': 4},
+         doc='atheris campaign over charge vectors and entry styles'),
 ]
